@@ -280,7 +280,9 @@ theorem step_adv (c : Conn) (hq : c.quirks.raiseBeforeWrite = false) (op : Op) (
   · exact key _ (rxMaxData_lmdq ..) (rxMaxData_frames ..)
   · exact key _ (rxMaxStreamData_lmdq ..) (rxMaxStreamData_frames ..)
   · exact key _ (rxMaxStreams_lmdq ..) (rxMaxStreams_frames ..)
-  · exact key (_, {}) rfl rfl
+  · rcases rxTransportParams_cases c _ with he | he <;> rw [he]
+    · exact key (_, Out.connError PROTOCOL_VIOLATION) rfl rfl
+    · exact key (_, {}) rfl rfl
   · exact key (_, {}) (unblockStreams_lmdq ..) rfl
   · exact key _ (rxStopSending_lmdq ..) (rxStopSending_frames ..)
   · exact key _ (rxStreamDataBlocked_lmdq ..) (rxStreamDataBlocked_frames ..)
